@@ -267,6 +267,8 @@ def server_args_come_from_decoders(ctx, rule):
                 if not dec:
                     continue   # not a decoded argument (pending sink, extensions, context)
                 n += 1
+                both = any(re.search(r"ParamsSequence", l.detail.get("callee") or "") for l in dec) and any(re.search(r"Params::<'a>::parse$", l.detail.get("callee") or "") for l in dec)
+                R.check(both, rule, "%s::%s::%s:arg#%d-both-encodings" % (crate, tname, rust, j), "argument %d of %s can be read positionally and by name" % (j, rust), "argument %d of %s::%s is decoded %s only: the generated server no longer accepts both encodings for every declaration (a `param_kind = map` method called positionally with an omitted optional tail, or with no params at all, is answered -32602 although the values are there / optional)" % (j, tname, rust, "by name" if not any(re.search(r"ParamsSequence", l.detail.get("callee") or "") for l in dec) else "positionally"), where(scall))
                 alien = [l for l in lv if l not in dec and not (l.kind == "call" and re.search(r"Try.*::branch$|from_residual$", l.detail.get("callee") or ""))]
                 R.check(not alien, rule, "%s::%s::%s:arg#%d-from-decoder-only" % (crate, tname, rust, j), "argument %d of %s is always a decoded value" % (j, rust), "argument %d of %s::%s can also be %s without any parameter read: a call whose params the decoders would refuse (-32602) is accepted and run with a substituted value" % (j, tname, rust, sorted({flow.leaf_str(l)[:50] for l in alien})[:3]), where(scall))
     return n
